@@ -180,22 +180,49 @@ def run(ctx):
         "lower bound on re-keys: only for re-keys forced by the OpenSSH client's RekeyLimit=16K (payload/64KiB, deterministic in packet.c); "
         "server-initiated re-keys are asynchronous (kexLoop) and only required to occur somewhere in the run (else exit 2)",
     ]
-    # ---- 1. the design: TLC on the two-party abstraction and on the configuration-space definitions
-    r = ctx.tlc_must_hold("SSHInterop_Proto", cfg="SSHInterop_Proto.cfg", timeout=900, coverage=True,
+    # ---- 1. the design: TLC on the two-party abstraction and on the configuration-space definitions.  These runs do not
+    # depend on the code, so they proceed in a thread (private counters, merged at the end) while the connections run.
+    import copy, threading
+    dsub = copy.copy(ctx)
+    dsub.tlc_runs, dsub.states, dsub.transitions = [], 0, 0
+    derr = []
+
+    def design():
+        try:
+            design_checks(dsub)
+        except BaseException as e:      # re-raised in the main thread
+            derr.append(e)
+    dth = threading.Thread(target=design)
+    dth.start()
+    try:
+        code_checks(ctx)
+    finally:
+        dth.join()
+    if derr:
+        raise derr[0]
+    ctx.tlc_runs = dsub.tlc_runs + ctx.tlc_runs
+    ctx.states += dsub.states
+    ctx.transitions += dsub.transitions
+
+
+def design_checks(ctx):
+    r = ctx.tlc_must_hold("SSHInterop_Proto", cfg="SSHInterop_Proto.cfg", timeout=900, coverage=True, workers=4,
                           note="Go handshakeTransport x foreign client x monitor: no rule flagged, counters consistent, no deadlock")
     unused = [a for a in r.coverage_zero if a not in ("Stutter",)]
     if unused:
         raise vlib.Infra("SSHInterop_Proto: actions never taken (vacuous model): %s" % unused)
     if ctx.thorough:
-        r = ctx.tlc("SSHInterop_Proto", cfg="SSHInterop_ProtoNoQueue.cfg", timeout=900, expect_violation=True, count=False,
+        r = ctx.tlc("SSHInterop_Proto", cfg="SSHInterop_ProtoNoQueue.cfg", timeout=900, expect_violation=True, count=False, workers=4,
                     note="sanity: a server that does not queue during its key exchange must break K1Out")
         if r.violated != "K1Out":
             raise vlib.Infra("SSHInterop_ProtoNoQueue: expected the monitor to flag K1Out, got %r" % r.violated)
-        ctx.tlc_must_hold("SSHInterop_Proto", cfg="SSHInterop_ProtoBig.cfg", timeout=1800, note="3 data packets, 2 spontaneous re-keys per side")
+        ctx.tlc_must_hold("SSHInterop_Proto", cfg="SSHInterop_ProtoBig.cfg", timeout=1800, workers=4, note="3 data packets, 2 spontaneous re-keys per side")
         for t in ("quick", "pairwise"):
             ctx.tlc_must_hold("SSHInterop_MCsmall", cfg="SSHInterop_MCsmall_%s.cfg" % t, workers=1, timeout=600, count=False,
                               note="abstract instance of the configuration space: coverage ASSUMEs")
 
+
+def code_checks(ctx):
     # ---- 2. the configuration lists and the rows
     L, excluded = derive_lists(ctx)
     ctx.extra["lists"] = L
